@@ -444,6 +444,8 @@ func (fr *Frame) execCall(st *State, c *ssa.CallCommon, site ssa.Value) Val {
 	}
 	if c.IsInvoke() {
 		recv := fr.val(c.Value)
+		// "callsite M: expr" clauses also apply to calls of M through an interface (recv = the interface value)
+		fr.callSiteChecks(st, c.Method.Name(), true, append([]Val{recv}, args...))
 		return fr.execInvoke(st, c, recv, args, resT)
 	}
 	if fn := c.StaticCallee(); fn != nil {
